@@ -107,11 +107,34 @@ class Module:
         self.relpath = relpath
         self.source = source
         self.tree = ast.parse(source, filename=path)
+        self._drop_annotations()
         self.funcs: dict[str, Func] = {}
         self.classes: dict[str, ast.ClassDef] = {}
         self.imports: dict[str, str] = {}  # local alias -> dotted target
         self.consts: dict[str, ast.AST] = {}  # module-level NAME = <expr>
         self._index()
+
+    def _drop_annotations(self):
+        """`x: T = e` is read as `x = e`, a bare `x: T` as nothing (in the analyser's copy of the tree): annotations say nothing
+        about behaviour, and the rules look for plain assignments."""
+
+        class T(ast.NodeTransformer):
+            def visit_ClassDef(self, c):
+                # the annotated names directly in a class body are its fields (dataclasses, NamedTuple): they stay
+                for st in c.body:
+                    if not isinstance(st, ast.AnnAssign):
+                        self.visit(st)
+                return c
+
+            def visit_AnnAssign(self, n):
+                self.generic_visit(n)
+                if n.value is None:
+                    return ast.copy_location(ast.Pass(), n)
+                return ast.copy_location(ast.Assign(targets=[n.target], value=n.value, lineno=n.lineno), n)
+
+        if any(isinstance(x, ast.AnnAssign) for x in ast.walk(self.tree)):
+            self.tree = ast.fix_missing_locations(T().visit(self.tree))
+            # a class body / function body left with only `pass` statements from bare annotations stays syntactically fine
 
     def _index(self):
         for st in self.tree.body:
@@ -130,6 +153,37 @@ class Module:
             elif isinstance(st, ast.Assign) and len(st.targets) == 1 and isinstance(st.targets[0], ast.Name):
                 self.consts[st.targets[0].id] = st.value
         self._index_funcs(self.tree.body, prefix="", cls=None, parent=None)
+        self._index_aliases(self.tree.body, prefix="")
+
+    def _index_aliases(self, body, prefix):
+        """`old_name = new_name` at module / class level, where new_name is a function of that scope, and one-line wrappers
+        `def old_name(...): return new_name(<the same parameters>)`: the old name stands for the same function (a rename that keeps
+        the public name alive)"""
+        for st in body:
+            if isinstance(st, ast.Assign) and len(st.targets) == 1 and isinstance(st.targets[0], ast.Name) and isinstance(st.value, ast.Name):
+                new_q, old_q = prefix + st.value.id, prefix + st.targets[0].id
+                if new_q in self.funcs and old_q not in self.funcs:
+                    self.funcs[old_q] = self.funcs[new_q]
+                    self.aliases = getattr(self, "aliases", {})
+                    self.aliases[old_q] = new_q
+            elif isinstance(st, ast.ClassDef):
+                self._index_aliases(st.body, prefix + st.name + ".")
+            elif isinstance(st, (ast.FunctionDef, ast.AsyncFunctionDef)):
+                body_ = [x for x in st.body if not (isinstance(x, ast.Expr) and isinstance(x.value, ast.Constant))]
+                if len(body_) == 1 and isinstance(body_[0], ast.Return) and isinstance(body_[0].value, ast.Call) and not body_[0].value.keywords:
+                    c = body_[0].value
+                    params = [a.arg for a in st.args.posonlyargs + st.args.args]
+                    callee = None
+                    if isinstance(c.func, ast.Name):
+                        callee, args = prefix + c.func.id, [norm(a) for a in c.args]
+                        want = params
+                    elif isinstance(c.func, ast.Attribute) and isinstance(c.func.value, ast.Name) and c.func.value.id == "self" and prefix:
+                        callee, args = prefix + c.func.attr, ["self"] + [norm(a) for a in c.args]
+                        want = params
+                    if callee and callee in self.funcs and callee != prefix + st.name and args == want:
+                        self.funcs[prefix + st.name] = self.funcs[callee]
+                        self.aliases = getattr(self, "aliases", {})
+                        self.aliases[prefix + st.name] = callee
 
     def _index_funcs(self, body, prefix, cls, parent):
         for st in body:
@@ -149,6 +203,33 @@ class Module:
 
 
 _CALL_FUNCS = {}
+
+
+class _FlattenFStrings(ast.NodeTransformer):
+    # f"{'>seq_'}{node}" (a literal that took the place of a named constant inside an f-string) is read as f">seq_{node}"
+
+    def visit_JoinedStr(self, n):
+        self.generic_visit(n)
+        vals = []
+        for v in n.values:
+            if isinstance(v, ast.FormattedValue) and isinstance(v.value, ast.Constant) and isinstance(v.value.value, str) and v.conversion == -1 and v.format_spec is None:
+                v = ast.copy_location(ast.Constant(value=v.value.value), v)
+            if isinstance(v, ast.Constant) and vals and isinstance(vals[-1], ast.Constant):
+                vals[-1] = ast.copy_location(ast.Constant(value=vals[-1].value + v.value), vals[-1])
+            else:
+                vals.append(v)
+        n.values = vals
+        return n
+
+
+class _TupleLit(tuple):
+    """value of a module-level constant that is a tuple of literals"""
+
+
+def _lit_node(v):
+    if isinstance(v, _TupleLit):
+        return ast.Tuple(elts=[ast.Constant(value=x) for x in v], ctx=ast.Load())
+    return ast.Constant(value=v)
 
 
 class Repo:
@@ -177,10 +258,12 @@ class Repo:
                     raise AnalysisError("E1", os.path.relpath(p, self.root), f"does not parse: {e}")
         for m_ in self.modules.values():
             m_.repo = self
+        self._canonical_names()
         self._fold_named_constants()
         self._getter_lambdas()
         self._bool_identity_tests()
         self._except_sentinels()
+        self._literal_sentinels()
         self._split_parallel_assignments()
         self._running_extrema()
         self._augment_assignments()
@@ -259,6 +342,87 @@ class Repo:
             if d is not None:
                 out.setdefault(p_.arg, d)
         return out
+
+    def _canonical_names(self):
+        """A function that was renamed while its old name is kept alive (`old = new`, or `def old(...): return new(...)`) is read
+        under the old name everywhere: definition, method calls, imports (in the analyser's copy of the trees).  The rules name
+        the program's functions by the names the project uses for them in its own interface, and those are the ones kept."""
+        ren = {}
+        for mod in self.modules.values():
+            for old_q, new_q in getattr(mod, "aliases", {}).items():
+                o, n_ = old_q.split(".")[-1], new_q.split(".")[-1]
+                if o != n_:
+                    ren[n_] = o
+        # an attribute that was renamed while the constructor parameter that feeds it kept its name (`self.contig = contig_id`,
+        # the keyword is part of the class's interface): read under the parameter's name, as before the rename
+        aren = {}
+        all_attrs = {}
+        for mod in self.modules.values():
+            for x in ast.walk(mod.tree):
+                if isinstance(x, ast.Attribute):
+                    all_attrs[x.attr] = all_attrs.get(x.attr, 0) + 1
+        for mod in self.modules.values():
+            for cname, cnode in mod.classes.items():
+                init = next((st for st in cnode.body if isinstance(st, ast.FunctionDef) and st.name == "__init__"), None)
+                if init is None:
+                    continue
+                params = {a.arg for a in init.args.posonlyargs + init.args.args + init.args.kwonlyargs}
+                stores = {}
+                for st in ast.walk(init):
+                    if isinstance(st, ast.Assign) and len(st.targets) == 1 and isinstance(st.targets[0], ast.Attribute) and isinstance(st.targets[0].value, ast.Name) and st.targets[0].value.id == "self":
+                        stores[st.targets[0].attr] = st.value
+                if cname != "StableNode":
+                    continue  # (only where the rules name the fields: the interval record of the converters, whose fields are its constructor's parameters)
+                for attr, v in stores.items():
+                    if isinstance(v, ast.Name) and v.id in params and v.id != attr and v.id not in stores and all_attrs.get(v.id, 0) == 0 and not any(isinstance(m_, ast.FunctionDef) and m_.name in (attr, v.id) for m_ in cnode.body):
+                        aren[attr] = v.id
+        if aren:
+            for mod in self.modules.values():
+                for x in ast.walk(mod.tree):
+                    if isinstance(x, ast.Attribute) and x.attr in aren:
+                        x.attr = aren[x.attr]
+        if not ren:
+            return
+        # a new name that is also used for something else in the program is left alone
+        for mod in self.modules.values():
+            for x in ast.walk(mod.tree):
+                if isinstance(x, (ast.ClassDef,)) and x.name in ren:
+                    ren.pop(x.name, None)
+        for mod in self.modules.values():
+            for x in ast.walk(mod.tree):
+                if isinstance(x, (ast.FunctionDef, ast.AsyncFunctionDef)) and x.name in ren:
+                    # the one-line wrapper / alias that carried the old name disappears behind the renamed definition
+                    x.name = ren[x.name]
+                elif isinstance(x, ast.Attribute) and x.attr in ren:
+                    x.attr = ren[x.attr]
+                elif isinstance(x, ast.Name) and x.id in ren:
+                    x.id = ren[x.id]
+                elif isinstance(x, ast.alias) and x.name in ren:
+                    x.name = ren[x.name]
+                elif isinstance(x, ast.keyword) and False:
+                    pass
+            # drop `old = old` / wrapper definitions that now call themselves, then re-index
+            def prune(body):
+                out = []
+                for st in body:
+                    if isinstance(st, ast.Assign) and len(st.targets) == 1 and isinstance(st.targets[0], ast.Name) and isinstance(st.value, ast.Name) and st.targets[0].id == st.value.id:
+                        continue
+                    if isinstance(st, (ast.FunctionDef, ast.AsyncFunctionDef)):
+                        b_ = [y for y in st.body if not (isinstance(y, ast.Expr) and isinstance(y.value, ast.Constant))]
+                        if len(b_) == 1 and isinstance(b_[0], ast.Return) and isinstance(b_[0].value, ast.Call) and norm(b_[0].value.func).split(".")[-1] == st.name and len([z for z in body if isinstance(z, (ast.FunctionDef, ast.AsyncFunctionDef)) and z.name == st.name]) > 1:
+                            continue
+                    if isinstance(st, ast.ClassDef):
+                        st.body = prune(st.body) or [ast.Pass()]
+                    out.append(st)
+                return out
+
+            mod.tree.body = prune(mod.tree.body)
+            mod.funcs.clear()
+            mod.classes.clear()
+            mod.consts.clear()
+            mod.imports.clear()
+            mod.aliases = {}
+            mod._index()
 
     def _bool_identity_tests(self):
         """`f(x) is False` / `f(x) is not True` is written `not f(x)`, `f(x) is True` / `is not False` is written `f(x)`,
@@ -352,6 +516,41 @@ class Repo:
                             t.orelse = miss
                             del lst[i]
                             ast.fix_missing_locations(t)
+
+    def _literal_sentinels(self):
+        """A worker function (the `target=` of a Process constructed in its module) whose last statement puts a text / number
+        literal on the queue it was given, while the other functions of the module compare what they take from a queue with
+        that same literal (`item == "DONE"`): the literal is an end-of-work marker like None.  It is written None on both
+        sides (`put(None)`, `item is None`), in place — the records on the queue are objects of a program class and never equal
+        to the literal."""
+        for mod in self.modules.values():
+            targets = set()
+            for x in ast.walk(mod.tree):
+                if isinstance(x, ast.Call) and norm(x.func).split(".")[-1] == "Process":
+                    for k in x.keywords:
+                        if k.arg == "target" and isinstance(k.value, ast.Name):
+                            targets.add(k.value.id)
+            for wname in targets:
+                w = mod.funcs.get(wname)
+                if w is None or not w.node.body:
+                    continue
+                last = w.node.body[-1]
+                if not (isinstance(last, ast.Expr) and isinstance(last.value, ast.Call) and isinstance(last.value.func, ast.Attribute) and last.value.func.attr == "put" and isinstance(last.value.func.value, ast.Name) and last.value.func.value.id in w.params and len(last.value.args) == 1 and isinstance(last.value.args[0], ast.Constant) and isinstance(last.value.args[0].value, (str, int)) and not isinstance(last.value.args[0].value, bool)):
+                    continue
+                lit = last.value.args[0].value
+                sites = []
+                for f in mod.funcs.values():
+                    if f is w:
+                        continue
+                    for c in ast.walk(f.node):
+                        if isinstance(c, ast.Compare) and len(c.ops) == 1 and isinstance(c.ops[0], (ast.Eq, ast.NotEq, ast.Is, ast.IsNot)) and isinstance(c.left, ast.Name) and isinstance(c.comparators[0], ast.Constant) and type(c.comparators[0].value) is type(lit) and c.comparators[0].value == lit:
+                            sites.append(c)
+                if not sites:
+                    continue
+                last.value.args[0] = ast.copy_location(ast.Constant(value=None), last.value.args[0])
+                for c in sites:
+                    c.ops = [ast.Is() if isinstance(c.ops[0], (ast.Eq, ast.Is)) else ast.IsNot()]
+                    c.comparators = [ast.copy_location(ast.Constant(value=None), c.comparators[0])]
 
     def _getter_lambdas(self):
         """`operator.itemgetter(2)` / `itemgetter(1, 2)` / `attrgetter("start")` with constant arguments are written as the
@@ -481,7 +680,7 @@ class Repo:
         evaluation order and short-circuit), and a comparison with the constant on the left is mirrored
         (`60000 < n` reads `n > 60000`)."""
         neg = {ast.Lt: ast.GtE, ast.LtE: ast.Gt, ast.Gt: ast.LtE, ast.GtE: ast.Lt, ast.Eq: ast.NotEq, ast.NotEq: ast.Eq, ast.Is: ast.IsNot, ast.IsNot: ast.Is, ast.In: ast.NotIn, ast.NotIn: ast.In}
-        mirror = {ast.Lt: ast.Gt, ast.LtE: ast.GtE, ast.Gt: ast.Lt, ast.GtE: ast.LtE, ast.Eq: ast.Eq, ast.NotEq: ast.NotEq}
+        mirror = {ast.Lt: ast.Gt, ast.LtE: ast.GtE, ast.Gt: ast.Lt, ast.GtE: ast.LtE, ast.Eq: ast.Eq, ast.NotEq: ast.NotEq, ast.Is: ast.Is, ast.IsNot: ast.IsNot}
 
         def negate(e):
             if isinstance(e, ast.Compare) and len(e.ops) == 1 and type(e.ops[0]) in neg:
@@ -511,7 +710,9 @@ class Repo:
 
             def visit_Compare(self, n):
                 self.generic_visit(n)
-                if len(n.ops) == 1 and type(n.ops[0]) in mirror and isinstance(n.left, ast.Constant) and not isinstance(n.comparators[0], ast.Constant):
+                lit_left = isinstance(n.left, ast.Constant) or (isinstance(n.left, ast.Attribute) and norm(n.left) in ("sys.stdout", "sys.stderr", "sys.stdin") and not isinstance(n.comparators[0], ast.Attribute)) or (isinstance(n.left, (ast.List, ast.Tuple, ast.Dict, ast.Set)) and not (getattr(n.left, "elts", None) or getattr(n.left, "keys", None))) or (isinstance(n.left, ast.UnaryOp) and isinstance(n.left.op, ast.USub) and isinstance(n.left.operand, ast.Constant))
+                lit_right = isinstance(n.comparators[0], ast.Constant) or (isinstance(n.comparators[0], (ast.List, ast.Tuple, ast.Dict, ast.Set)) and not (getattr(n.comparators[0], "elts", None) or getattr(n.comparators[0], "keys", None)))
+                if len(n.ops) == 1 and type(n.ops[0]) in mirror and lit_left and not lit_right:
                     return ast.copy_location(ast.Compare(left=n.comparators[0], ops=[mirror[type(n.ops[0])]()], comparators=[n.left]), n)
                 return n
 
@@ -519,7 +720,7 @@ class Repo:
             for f in mod.funcs.values():
                 if f.parent is not None:
                     continue  # nested functions are rewritten with their parent
-                if any(isinstance(x, ast.UnaryOp) and isinstance(x.op, ast.Not) or isinstance(x, ast.Compare) and isinstance(x.left, ast.Constant) or (isinstance(x, ast.Call) and isinstance(x.func, ast.Name) and x.func.id == "len") for x in ast.walk(f.node)):
+                if any(isinstance(x, ast.UnaryOp) and isinstance(x.op, ast.Not) or isinstance(x, ast.Compare) and isinstance(x.left, (ast.Constant, ast.List, ast.Tuple, ast.Dict, ast.Set, ast.UnaryOp, ast.Attribute)) or (isinstance(x, ast.Call) and isinstance(x.func, ast.Name) and x.func.id == "len") for x in ast.walk(f.node)):
                     for i, st in enumerate(f.node.body):
                         f.node.body[i] = T().visit(st)
                     ast.fix_missing_locations(f.node)
@@ -802,11 +1003,19 @@ class Repo:
                         call.keywords = [k for k in call.keywords if k.arg in kw]
 
     def _specialise_constant_params(self):
+        """(to a fixed point, at most three sweeps: a constant that reaches one function may fold a local there that is
+        the argument of the next)"""
+        for _ in range(3):
+            if not self._specialise_constant_params_once():
+                break
+
+    def _specialise_constant_params_once(self):
         """Closed-world constant propagation into parameters: when every call of a program function (there is at least one)
         binds a parameter to the same literal — explicitly, or by leaving it to a default of that value — and the
         function never rebinds it, reads of the parameter are replaced by the literal (`check_path=True` everywhere,
         `batch_size=1000`, `encoding="utf-8"`).  Conditions on it then fold like any other constant test."""
         sites = {}
+        changed_any = False
         # names (and attribute names) that are read somewhere other than as the callee of a call
         value_names = set()
         for m2 in self.modules.values():
@@ -835,6 +1044,23 @@ class Repo:
                 ok = True
                 for cf, call in calls:
                     ba = self.bound_args(cf, call)
+                    if ba is None and not call.args and len(call.keywords) == 1 and call.keywords[0].arg is None and "add_arguments" in cf.module.funcs:
+                        # `run(**vars(args))` in a command's main(): the parameters that are destinations of an argparse
+                        # option get whatever the user types; every other parameter keeps its signature default
+                        dests = set()
+                        for c_ in walk_own(cf.module.funcs["add_arguments"].node):
+                            if isinstance(c_, ast.Call) and c_.args and all(isinstance(a_, ast.Constant) and isinstance(a_.value, str) for a_ in c_.args):
+                                kw_ = {k.arg: k.value for k in c_.keywords}
+                                if isinstance(kw_.get("dest"), ast.Constant):
+                                    dests.add(kw_["dest"].value)
+                                else:
+                                    longs = [a_.value for a_ in c_.args if a_.value.startswith("--")] or [a_.value for a_ in c_.args if not a_.value.startswith("-")]
+                                    dests |= {l_.lstrip("-").replace("-", "_") for l_ in longs[:1]}
+                        a_ = f.node.args
+                        pos_ = a_.posonlyargs + a_.args
+                        dflt = {p2.arg: d2 for p2, d2 in list(zip(pos_[len(pos_) - len(a_.defaults):], a_.defaults)) + [(p2, d2) for p2, d2 in zip(a_.kwonlyargs, a_.kw_defaults) if d2 is not None]}
+                        if dests:
+                            ba = {p2: (ast.Name(id="<command line>", ctx=ast.Load()) if p2 in dests else dflt.get(p2)) for p2 in f.params}
                     if ba is None:
                         ok = False
                         break
@@ -848,13 +1074,20 @@ class Repo:
                     if p_ in ("self", "cls") or p_ in stored or any(v is None for v in vs):
                         continue
                     lits = set()
-                    for v in vs:
+                    for (cf_, _call), v in zip(calls, vs):
+                        if isinstance(v, ast.Name) and v.id not in cf_.params:
+                            # a local of the caller bound exactly once, to a literal (`cache = None` after folding)
+                            ds_ = [st_ for st_ in ast.walk(cf_.node) if isinstance(st_, (ast.Assign, ast.AugAssign, ast.For, ast.With, ast.NamedExpr, ast.AnnAssign)) and any(isinstance(x_, ast.Name) and x_.id == v.id and isinstance(x_.ctx, (ast.Store, ast.Del)) for x_ in ast.walk(st_))]
+                            if len(ds_) == 1 and isinstance(ds_[0], ast.Assign) and len(ds_[0].targets) == 1 and isinstance(ds_[0].targets[0], ast.Name) and isinstance(ds_[0].value, ast.Constant):
+                                v = ds_[0].value
                         if isinstance(v, ast.Constant) and (v.value is None or isinstance(v.value, (bool, int, float, str, bytes))):
                             lits.add((type(v.value).__name__, v.value))
                         else:
                             lits.add(("?", id(v)))
                     if len(lits) == 1 and next(iter(lits))[0] != "?":
                         subst[p_] = next(iter(lits))[1]
+                read_ = {x.id for st_ in f.node.body if not isinstance(st_, (ast.FunctionDef, ast.AsyncFunctionDef, ast.ClassDef)) for x in ast.walk(st_) if isinstance(x, ast.Name) and isinstance(x.ctx, ast.Load)}
+                subst = {k_: v_ for k_, v_ in subst.items() if k_ in read_}
                 if not subst:
                     continue
 
@@ -871,6 +1104,8 @@ class Repo:
                 folded = fold_consts(f)
                 if folded is not f:
                     f.node.body = folded.node.body
+                changed_any = True
+        return changed_any
 
     # ----------------------------------------------------------------------------------------
     def _fold_named_constants(self):
@@ -891,8 +1126,28 @@ class Repo:
                 v = e
                 if isinstance(v, ast.UnaryOp) and isinstance(v.op, ast.USub) and isinstance(v.operand, ast.Constant) and isinstance(v.operand.value, (int, float)):
                     v = ast.Constant(value=-v.operand.value)
-                if isinstance(v, ast.Constant) and isinstance(v.value, (str, int, float, bytes)) and not isinstance(v.value, bool) and counts.get(name, 0) == 1:
+                if isinstance(v, ast.Constant) and (isinstance(v.value, (str, int, float, bytes, bool)) or v.value is None) and counts.get(name, 0) == 1:
                     table[name] = v.value
+                elif isinstance(v, ast.Tuple) and v.elts and all(isinstance(e_, ast.Constant) and (isinstance(e_.value, (str, int, float, bytes, bool)) or e_.value is None) or (isinstance(e_, ast.UnaryOp) and isinstance(e_.op, ast.USub) and isinstance(e_.operand, ast.Constant) and isinstance(e_.operand.value, (int, float))) for e_ in v.elts) and counts.get(name, 0) == 1 and name.isupper():
+                    table[name] = _TupleLit(tuple(-e_.operand.value if isinstance(e_, ast.UnaryOp) else e_.value for e_ in v.elts))  # NOT_FOUND = (-1, -1)
+            # constants spelled as a sum of literals and earlier constants (`FMT = "bubble" + SEP + "%d"`)
+            def _val(e_):
+                if isinstance(e_, ast.Constant) and isinstance(e_.value, (str, int)) and not isinstance(e_.value, bool):
+                    return e_.value
+                if isinstance(e_, ast.Name) and e_.id in table and isinstance(table[e_.id], (str, int)) and not isinstance(table[e_.id], bool):
+                    return table[e_.id]
+                if isinstance(e_, ast.BinOp) and isinstance(e_.op, ast.Add):
+                    l_, r_ = _val(e_.left), _val(e_.right)
+                    if l_ is not None and r_ is not None and type(l_) is type(r_):
+                        return l_ + r_
+                return None
+
+            for _ in range(3):
+                for name, e in mod.consts.items():
+                    if name not in table and isinstance(e, ast.BinOp) and counts.get(name, 0) == 1:
+                        v_ = _val(e)
+                        if v_ is not None:
+                            table[name] = v_
             simple[mname] = table
         for mname, mod in self.modules.items():
             visible = dict(simple[mname])
@@ -911,12 +1166,12 @@ class Repo:
             class T0(ast.NodeTransformer):
                 def visit_Name(self, node):
                     if isinstance(node.ctx, ast.Load) and node.id in visible:
-                        return ast.copy_location(ast.Constant(value=visible[node.id]), node)
+                        return ast.copy_location(_lit_node(visible[node.id]), node)
                     return node
 
                 def visit_Attribute(self, node):
                     if isinstance(node.ctx, ast.Load) and isinstance(node.value, ast.Name) and (node.value.id, node.attr) in dotted:
-                        return ast.copy_location(ast.Constant(value=dotted[(node.value.id, node.attr)]), node)
+                        return ast.copy_location(_lit_node(dotted[(node.value.id, node.attr)]), node)
                     return self.generic_visit(node)
 
             for st in mod.tree.body:
@@ -932,17 +1187,17 @@ class Repo:
                 class T(ast.NodeTransformer):
                     def visit_Name(self, node):
                         if isinstance(node.ctx, ast.Load) and node.id in visible and node.id not in shadow:
-                            return ast.copy_location(ast.Constant(value=visible[node.id]), node)
+                            return ast.copy_location(_lit_node(visible[node.id]), node)
                         return node
 
                     def visit_Attribute(self, node):
                         if isinstance(node.ctx, ast.Load) and isinstance(node.value, ast.Name) and (node.value.id, node.attr) in dotted and node.value.id not in shadow:
-                            return ast.copy_location(ast.Constant(value=dotted[(node.value.id, node.attr)]), node)
+                            return ast.copy_location(_lit_node(dotted[(node.value.id, node.attr)]), node)
                         return self.generic_visit(node)
 
                 for i, st in enumerate(f.node.body):
                     if not isinstance(st, (ast.FunctionDef, ast.AsyncFunctionDef, ast.ClassDef)):
-                        f.node.body[i] = T().visit(st)
+                        f.node.body[i] = _FlattenFStrings().visit(T().visit(st))
                 ast.fix_missing_locations(f.node)
 
     # -- lookup ------------------------------------------------------------------------------
@@ -2833,6 +3088,17 @@ def rotate_primed_loops(func):
                     out.append(new)
                     changed[0] = True
                     continue
+            if isinstance(st, ast.While) and not st.orelse and isinstance(st.test, ast.Constant) and st.test.value is True:
+                # A; while True: B; A   (B leaves by break / return only, no continue)  ->  while True: A; B
+                k = 0
+                while k < len(out) and k < len(st.body) - 1 and norm(out[-1 - k]) == norm(st.body[-1 - k]) and isinstance(out[-1 - k], (ast.Assign, ast.Expr, ast.AugAssign)):
+                    k += 1
+                if k >= 1 and not own_continue(st.body[:-k]):
+                    a = out[len(out) - k :]
+                    del out[len(out) - k :]
+                    out.append(ast.copy_location(ast.While(test=st.test, body=a + st.body[:-k], orelse=[]), st))
+                    changed[0] = True
+                    continue
             out.append(st)
         return out
 
@@ -3972,6 +4238,20 @@ def regex_call(mod, call):
         d = mod.consts[base.id]
         if isinstance(d, ast.Call) and norm(d.func) == "re.compile" and d.args and isinstance(d.args[0], ast.Constant) and isinstance(d.args[0].value, str):
             return (m, d.args[0].value, list(call.args))
+    if isinstance(base, ast.Call) and len(base.args) == 1 and not base.keywords:
+        # `re.compile(P).match(x)` and `compiled(P).match(x)` where `compiled` is a memo around re.compile of its one parameter
+        is_compile = norm(base.func) == "re.compile"
+        if not is_compile and isinstance(base.func, ast.Name) and base.func.id in mod.funcs:
+            h = mod.funcs[base.func.id]
+            ps = [p_ for p_ in h.params if p_ != "self"]
+            calls_ = [c for c in ast.walk(h.node) if isinstance(c, ast.Call)]
+            is_compile = len(ps) == 1 and bool(calls_) and all(norm(c.func) == "re.compile" and len(c.args) == 1 and norm(c.args[0]) == ps[0] and not c.keywords for c in calls_) and all(isinstance(r.value, (ast.Name, ast.Subscript, ast.Call)) for r in ast.walk(h.node) if isinstance(r, ast.Return))
+        if is_compile:
+            p0 = base.args[0]
+            if isinstance(p0, ast.Name) and p0.id in mod.consts:
+                p0 = mod.consts[p0.id]
+            if isinstance(p0, ast.Constant) and isinstance(p0.value, str):
+                return (m, p0.value, list(call.args))
     return None
 
 
